@@ -28,6 +28,10 @@ def in_domain(src, toks):
     for t in toks:
         if t.type in (pytok.FSTRING_START, pytok.ERRORTOKEN):
             return False
+        if t.type == pytok.NAME and not t.string.isidentifier():
+            # reference artefact: CPython's tokenize module emits a NAME for any run of non-ASCII characters; the compiler then rejects
+            # the text as an invalid character, so it is not valid Python
+            return False
         if t.type == pytok.OP:
             if _XONSH_ONLY.search(t.string) or t.string == "<>":
                 return False
@@ -75,32 +79,15 @@ def check_case(acc, src, origin):
     if acc.evals % 1999 == 1:
         acc.sample({"origin": origin, "src": src[:120]})
     case = {"src": src, "origin": origin}
-    names = [t.string for t in ptoks if t.type == pytok.NAME and re.search(r"[^\w]", t.string)]
     if out.kind != "tree":
-        if names:
-            acc.finding("F01f", src[:100])
-        else:
-            acc.violation("tokenizer-rejects-valid-python", case, {"outcome": out.brief()})
+        acc.violation("tokenizer-rejects-valid-python", case, {"outcome": out.brief()})
         return
     obs = tokcheck.placement_only(tokcheck.xonsh_sig(out.value))
     for t in obs:
         acc.seen("token_types", t[0])
     d = tokcheck.first_diff(exp, obs)
     if d:
-        if names and _only_at_names(exp, obs, names):
-            acc.finding("F01f", src[:100])
-            return
         acc.violation("token-stream-differs", case, {"index": d[0], "cpython": repr(d[1]), "xonsh": repr(d[2])})
-
-
-def _only_at_names(exp, obs, names):
-    """F01f attribution: removing the tokens that overlap a non-\\w identifier on both sides makes the streams equal"""
-    spans = [(e[2], e[3]) for e in exp if e[0] == "NAME" and e[1] in names]
-
-    def keep(t):
-        return len(t) < 4 or not any(s <= t[2] < e or s < t[3] <= e for s, e in spans)
-
-    return [t for t in exp if keep(t)] == [t for t in obs if keep(t)]
 
 
 NUM_FOLLOW = ["", " ", "j", "J", ".", "..", ".real", " .real", "e", "e5", "_", "x", "if a else b", "or b", "and b", " if a else b", "in b", "is b", "not in b", "+1", "-1",
